@@ -72,6 +72,11 @@ type world struct {
 	events  []string
 	enq     map[string]int
 	removed map[string]bool
+	// publish hook: the first Enqueue of this item stops right after the item became visible in
+	// the queue (reached is closed) until the harness lets the producer go on (cont is closed)
+	hookID  string
+	reached chan struct{}
+	cont    chan struct{}
 }
 
 func (w *world) log(e string) {
@@ -91,10 +96,20 @@ func (q *queueProbe) Enqueue(item string, prio float64) error {
 	err := q.inner.Enqueue(item, prio)
 	q.w.mu.Lock()
 	q.w.enq[item]++
-	if q.w.enq[item] > 1 {
+	first := q.w.enq[item] == 1
+	if !first {
 		q.w.events = append(q.w.events, "e:"+num(item))
 	}
+	var reached, cont chan struct{}
+	if first && q.w.hookID == item {
+		reached, cont = q.w.reached, q.w.cont
+		q.w.hookID = ""
+	}
 	q.w.mu.Unlock()
+	if reached != nil {
+		close(reached)
+		<-cont
+	}
 	return err
 }
 
@@ -251,6 +266,8 @@ type sim struct {
 	drained bool
 	held    bool // the loop stands at the gate before a re-push
 	heldID  int
+	scanned bool // while held: the watcher had real time for a scan since the clock last moved
+	onGate  func()
 	l1      public_types.SharedQueueI
 	reqs    []*reqRec
 	gateQ   []*reqRec
@@ -486,6 +503,9 @@ func (s *sim) pump(cond func() bool, d time.Duration, onVerdict func(r *reqRec))
 	deadline := time.Now().Add(d)
 	for {
 		if s.c.Waiting(ptDone) > 0 {
+			if s.onGate != nil {
+				s.onGate()
+			}
 			var got *reqRec
 			ok := s.until(func() bool {
 				for _, r := range s.reqs {
@@ -556,10 +576,8 @@ func sortedIDs(rs []*reqRec, bad []string) string {
 	return joinOr(append(out, bad...))
 }
 
-func (s *sim) tick(holdAtRepush bool) string {
-	s.now = s.now.Add(100 * time.Millisecond)
-	s.mock.Set(s.now)
-	// watcher phase: everything past its TTL on the mock clock must be rejected (real-time wait)
+// watcherPhase: everything past its TTL on the mock clock must be rejected (real-time wait).
+func (s *sim) watcherPhase() ([]*reqRec, []string) {
 	expired := 0
 	for _, r := range s.reqs {
 		if r.waiting && s.now.After(r.arrival.Add(s.ttl)) {
@@ -583,12 +601,107 @@ func (s *sim) tick(holdAtRepush bool) string {
 			bad = append(bad, "stuck-removal")
 		}
 	}
+	return to, bad
+}
+
+// arriveTick: a tick (clock +100 ms, watcher first) whose loop pass runs while the arriving request
+// is inside queue.Enqueue, right after its id became visible in the shared queue and before Enqueue
+// returns to the producer.  (If the arrival is refused for lack of a slot the pass runs after it.)
+func (s *sim) arriveTick(w []string) string {
+	id, ok := kvI(w, "id")
+	prio, ok2 := s.parsePrio(w)
+	if !ok || !ok2 || int(id) != len(s.reqs) || s.real {
+		return "bad-op"
+	}
+	s.now = s.now.Add(100 * time.Millisecond)
+	s.mock.Set(s.now)
+	to, bad := s.watcherPhase()
+	sid := fmt.Sprintf("r%d", id)
+	reached, cont := make(chan struct{}), make(chan struct{})
+	s.w.mu.Lock()
+	s.w.hookID, s.w.reached, s.w.cont = sid, reached, cont
+	s.w.events = nil
+	s.w.mu.Unlock()
+	released := false
+	release := func() {
+		if !released {
+			released = true
+			close(cont)
+		}
+	}
+	defer release()
+	r := s.spawn(int(id), prio)
+	atHook := func() bool {
+		select {
+		case <-reached:
+			return true
+		default:
+			return false
+		}
+	}
+	if !s.until(func() bool { return isDone(r) || atHook() }, 5*time.Second) {
+		return "stuck:arrive-tick"
+	}
+	ans := "queued"
+	if !atHook() {
+		// no slot: the producer returned without publishing
+		r.returned = true
+		ans = "blocked"
+		if r.verdict != "blocked" {
+			ans = "unexpected:" + r.verdict
+		}
+		s.w.mu.Lock()
+		s.w.hookID = ""
+		s.w.mu.Unlock()
+	} else {
+		r.waiting, r.inMap = true, true
+	}
+	// the loop's pass; when it signals the request that is still inside Enqueue, the producer is
+	// let go first so that its Execute call can return
+	s.onGate = func() {
+		s.w.mu.Lock()
+		last := ""
+		for i := len(s.w.events) - 1; i >= 0; i-- {
+			if strings.HasPrefix(s.w.events[i], "a:") {
+				last = s.w.events[i]
+				break
+			}
+		}
+		s.w.mu.Unlock()
+		if last == "a:"+num(sid)+":1" {
+			release()
+		}
+	}
+	s.lc.Fire()
+	okp := s.pump(func() bool { return s.lc.Parked() }, 5*time.Second, s.onAllowed)
+	s.onGate = nil
+	release()
+	s.w.mu.Lock()
+	evs := append([]string(nil), s.w.events...)
+	s.w.mu.Unlock()
+	if !okp {
+		evs = append(evs, "stuck")
+	}
+	if ans == "queued" && !isDone(r) && !s.until(func() bool { return s.enqSeen(r) }, 5*time.Second) {
+		evs = append(evs, "stuck-enqueue")
+	}
+	if !s.awaitRemovals() {
+		evs = append(evs, "stuck-removal")
+	}
+	return ans + " to=" + sortedIDs(to, bad) + " log=" + joinOr(evs)
+}
+
+func (s *sim) tick(holdAtRepush bool) string {
+	s.now = s.now.Add(100 * time.Millisecond)
+	s.mock.Set(s.now)
+	to, bad := s.watcherPhase()
 	// loop phase
 	s.w.mu.Lock()
 	s.w.events = nil
 	s.w.mu.Unlock()
 	if holdAtRepush {
 		s.c.Gate(ptRepush, true)
+		s.scanned = false
 	}
 	s.lc.Fire()
 	okp := s.pump(func() bool { return s.lc.Parked() || s.c.Waiting(ptRepush) > 0 }, 5*time.Second, s.onAllowed)
@@ -634,6 +747,19 @@ func (s *sim) tickRelease() string {
 	s.w.events = nil
 	s.w.mu.Unlock()
 	s.held = false
+	// wall-clock TEST: if the held request is past its TTL and the watcher has had real time for a scan
+	// since (so it has seen the entry expired and could not take it), the watcher must come back for it
+	// at once when the attempt is over: verdict within 0.7 TTL of wall clock (TTL >= 1 s)
+	var heldReq *reqRec
+	for _, r := range s.reqs {
+		if r.id == s.heldID && r.waiting && s.now.After(r.arrival.Add(s.ttl)) {
+			heldReq = r
+		}
+	}
+	measure := s.scanned && heldReq != nil
+	s.scanned = false
+	prompt := "-"
+	t0 := time.Now()
 	s.c.Release(ptRepush)
 	// the loop finishes its pass (re-push, StopProcessing); then everything that is past its TTL by now
 	// - in particular the request the loop was holding - must be rejected by the watcher (real-time wait)
@@ -645,6 +771,12 @@ func (s *sim) tickRelease() string {
 			s.w.log("v:" + strconv.Itoa(r.id))
 		case "blocked":
 			to = append(to, r)
+			if measure && r == heldReq {
+				prompt = "0"
+				if time.Since(t0) <= s.ttl*7/10 { // the defect costs a whole further TTL; 0.7 TTL leaves room for a loaded machine
+					prompt = "1"
+				}
+			}
 		default:
 			bad = append(bad, fmt.Sprintf("!%s:%d", r.verdict, r.id))
 		}
@@ -673,7 +805,10 @@ func (s *sim) tickRelease() string {
 	if !s.awaitRemovals() {
 		evs = append(evs, "stuck-removal")
 	}
-	return "to=" + sortedIDs(to, bad) + " log=" + joinOr(evs)
+	if measure && prompt == "-" {
+		prompt = "0"
+	}
+	return "to=" + sortedIDs(to, bad) + " log=" + joinOr(evs) + " prompt=" + prompt
 }
 
 // advance: the mock clock moves while the loop stands at the gate before a re-push (its timer is
@@ -693,6 +828,7 @@ func (s *sim) advance(w []string) string {
 	}
 	s.now = then
 	s.mock.Set(s.now)
+	s.scanned = false
 	return "ok"
 }
 
@@ -714,6 +850,9 @@ func (s *sim) idle(w []string) string {
 	})
 	if !s.awaitRemovals() {
 		bad = append(bad, "stuck-removal")
+	}
+	if s.held && time.Duration(ms)*time.Millisecond >= s.ttl+100*time.Millisecond {
+		s.scanned = true
 	}
 	return "to=" + sortedIDs(to, bad)
 }
@@ -991,6 +1130,8 @@ func runCase(ops []string, emit func(string)) {
 		switch w[0] {
 		case "arrive":
 			emit(s.arrive(w, false))
+		case "arrive-tick":
+			emit(s.arriveTick(w))
 		case "arrive-begin":
 			emit(s.arrive(w, true))
 		case "arrive-end":
@@ -1163,8 +1304,11 @@ func execCase(c proto.Case, o *proto.Out) []string {
 			if a != "to=-" {
 				o.Count("idle-with-timeouts")
 			}
-		case strings.HasPrefix(a, "to=") || strings.HasPrefix(a, "log="):
+		case strings.HasPrefix(a, "to=") || strings.HasPrefix(a, "log=") || w[0] == "arrive-tick":
 			aw := strings.Fields(a)
+			if p, ok := proto.KV(aw, "prompt"); ok && p != "-" {
+				o.Count("held-expired-prompt-test")
+			}
 			if h, ok := proto.KV(aw, "held"); ok && h != "-" {
 				o.Count("loop-held-before-repush")
 			}
@@ -1526,6 +1670,30 @@ func permutations(xs []int, emit func([]int)) {
 	rec(0)
 }
 
+// arrivals whose publication in the shared queue is interleaved with a pass of the loop (the request
+// must be registered before it is published, else the loop pops an id it does not know and forgets it)
+func genArriveTick(r *prng.R) []string {
+	ops := []string{genCfg(r, r.Range(2, 4), 2, r.Range(1, 3), r.Range(1, 2))}
+	id := 0
+	spread := r.Range(1, 3)
+	for n := r.Range(6, 14); n > 0; n-- {
+		switch c := r.Intn(10); {
+		case c < 4:
+			ops = append(ops, fmt.Sprintf("arrive-tick id=%d prio=%s", id, genPrio(r, spread)))
+			id++
+		case c < 6:
+			ops = append(ops, fmt.Sprintf("arrive id=%d prio=%s", id, genPrio(r, spread)))
+			id++
+		default:
+			ops = append(ops, "tick")
+		}
+	}
+	for t := r.Range(2, 12); t > 0; t-- {
+		ops = append(ops, "tick")
+	}
+	return ops
+}
+
 // plain shutdown with waiters
 func genDrain(r *prng.R) []string {
 	ops := []string{genCfg(r, r.Range(1, 4), 2, r.Range(0, 1), 3)}
@@ -1627,9 +1795,9 @@ func malformed(r *prng.R) []string {
 }
 
 func gen(r *prng.R, f proto.Flags, emit func(proto.Case)) {
-	nShort, nLong, nOverlap, nHold, nDrain, nWall, nBad, nBound, nFifo, nHoldExp, nRepush, nHeap, nAttempt, nQueue := 26, 12, 6, 6, 5, 1, 4, 2, 6, 2, 6, 8, 3, 300
+	nShort, nLong, nOverlap, nHold, nDrain, nWall, nBad, nBound, nFifo, nHoldExp, nRepush, nHeap, nAttempt, nQueue, nPublish := 26, 12, 6, 6, 5, 1, 4, 2, 6, 2, 6, 8, 3, 300, 10
 	if f.Tier == "thorough" {
-		nShort, nLong, nOverlap, nHold, nDrain, nWall, nBad, nBound, nFifo, nHoldExp, nRepush, nHeap, nAttempt, nQueue = 600, 200, 120, 120, 80, 6, 10, 20, 100, 25, 120, 40, 15, 3000
+		nShort, nLong, nOverlap, nHold, nDrain, nWall, nBad, nBound, nFifo, nHoldExp, nRepush, nHeap, nAttempt, nQueue, nPublish = 600, 200, 120, 120, 80, 6, 10, 20, 100, 25, 120, 40, 15, 3000, 150
 	}
 	id := 0
 	add := func(prefix string, ops []string) {
@@ -1681,6 +1849,9 @@ func gen(r *prng.R, f proto.Flags, emit func(proto.Case)) {
 		}
 		for k := 0; k < nQueue; k++ {
 			add("q", genQueueRandom(r.Fork()))
+		}
+		for k := 0; k < nPublish; k++ {
+			add("u", genArriveTick(r.Fork()))
 		}
 		if b > 0 {
 			// widened search (budget > 1): only the classes that cost no real time are multiplied
